@@ -38,14 +38,18 @@ CONSTANTS Known, Unknown, Calls, Depth, InsertOnMiss, Emit
 VARIABLES tabs, seen, h
 vars == <<tabs, seen, h>>
 
-Tables == {"Mass", "NucCrg", "EleNum", "EleFull", "EleShort", "VdWChelpG", "VdWMK", "Polar", "EleName"}
+Tables == {"Mass", "NucCrg", "EleNum", "EleFull", "EleShort", "VdWChelpG", "VdWMK", "Polar", "EleName", "CovRad"}
 \* EleShort is keyed by FULL names ("CARBON"), none of which is in the call alphabet
 Tabs0 == [t \in Tables |-> IF t = "EleShort" THEN {} ELSE Known]
 
 \* which table a lookup reads (and, with InsertOnMiss, pollutes)
 TableOf == [getMass |-> "Mass", getNucCrg |-> "NucCrg", getEleNum |-> "EleNum", getEleFull |-> "EleFull",
             getEleShort |-> "EleShort", getVdWChelpG |-> "VdWChelpG", getVdWMK |-> "VdWMK",
-            getPolarizability |-> "Polar", getEleName |-> "EleName"]
+            getPolarizability |-> "Polar", getEleName |-> "EleName",
+            \* getCovRad(name, unit): asked for KNOWN names only (a miss is undefined behaviour in the code);
+            \* an unknown unit is rejected after the lookup
+            getCovRadAng |-> "CovRad", getCovRadBohr |-> "CovRad", getCovRadNm |-> "CovRad",
+            getCovRadBadUnit |-> "CovRad"]
 Lookups == DOMAIN TableOf
 MassCalls == {"getEleShortClosestInMass", "isMassAssociatedWithElement"}
 
@@ -55,7 +59,8 @@ Polluted(tb) == tb["Mass"] \ Known
 
 \* the answer class of call c on an object whose tables are tb
 Answer(tb, c) ==
-  CASE c.m \in Lookups -> IF c.n \in tb[TableOf[c.m]]
+  CASE c.m = "getCovRadBadUnit" -> "throw"
+    [] c.m \in Lookups -> IF c.n \in tb[TableOf[c.m]]
                           THEN (IF c.n \in Known THEN "found" ELSE "default")  \* a polluted entry answers
                           ELSE "throw"
     [] c.m = "isEleShort" -> IF c.n \in tb["EleFull"] THEN "true" ELSE "false"
@@ -88,6 +93,7 @@ Spec == Init /\ [][Next]_vars
 -----------------------------------------------------------------------------
 TypeOK == /\ \A c \in Calls : c.m \in Lookups \cup MassCalls \cup {"isEleShort", "isEleFull", "isElement"}
           /\ \A c \in Calls : c.m \in MassCalls => c.n \in Known \cup {"zero", "mid"}
+          /\ \A c \in Calls : (c.m \in Lookups /\ TableOf[c.m] = "CovRad") => c.n \in Known
 NoTrace == tabs = Tabs0
 HistoryIndependent == \A c \in Calls : Answer(tabs, c) = Answer(Tabs0, c)
 \* a reverse lookup never names a non-element, a lookup never answers from a default entry
